@@ -573,9 +573,11 @@ _ARG_VARIANTS = [
  dict(name='verifier-closure-taking-algorithm-called-with-constant', file=V, expect='flagged(blob-descriptor/generator-call)', find=_V_EVAL,
       replace='\t_ = digestAlgo\n' + _V_CLOSURE_PARAM.replace('describe(digestAlgo)', 'describe(digest.SHA256)')),
  dict(name='verifier-closure-escapes-and-is-called', file=V, expect='flagged(blob-descriptor/generator-call)', find=_V_EVAL,
-      replace=_V_CLOSURE_PARAM.replace('\tdesc, err := describe(digestAlgo)\n', '\tdescribers := []func(digest.Algorithm) (ocispec.Descriptor, error){describe}\n\tdesc, err := describers[0](digest.Canonical)\n')),
+      replace=_V_CLOSURE_PARAM.replace('\tdesc, err := describe(digestAlgo)\n', '\t_ = digestAlgo\n\tdescribers := []func(digest.Algorithm) (ocispec.Descriptor, error){describe}\n\tdesc, err := describers[0](digest.Canonical)\n')),
  dict(name='signer-closure-captures-constant-algorithm', file=S, expect='flagged(payload/blob-digest-algorithm/lookup)', find=_G_RET,
       replace='\tfallback := algorithms[crypto.SHA256]\n\t_ = digestAlg\n' + _S_CLOSURE_RET.replace('genDesc(digestAlg)', 'genDesc(fallback)')),
+ dict(name='signer-closure-swallows-generator-error', file=S, expect='flagged(payload/blob-digest-algorithm)', find=_G_RET,
+      replace=_S_CLOSURE_RET.replace('{ return genDesc(digestAlg) }', '{\n\t\tdesc, _ := genDesc(digestAlg)\n\t\treturn desc, nil\n\t}')),
  dict(name='signer-helper-handed-constant-hash', expect='flagged(payload/blob-digest-algorithm/lookup)', edits=[
       (SP, _MAP, _MAP + _DESCRIBE_HASH), (S, _S_BODY, '\treturn describeWith(crypto.SHA256, genDesc)\n')]),
  dict(name='verifier-helper-handed-constant-hash', expect='flagged(blob-descriptor/generator-call)', edits=[
